@@ -42,13 +42,15 @@ def check_returned(ctx, case):
     dissim = pool.get(dspec)
     continuum = cases.build_continuum(cspec)
     mode = case["mode"]
+    spy, _ = ac.setup(ctx)
     try:
-        if mode == "best":
-            al = continuum.get_best_alignment(dissim)
-        elif mode == "soft":
-            al = continuum.get_best_soft_alignment(dissim)
-        else:
-            al = continuum.get_fast_alignment(dissim, case["window"])
+        with ac.solver_config(spy, case.get("backend", "cbc")):
+            if mode == "best":
+                al = continuum.get_best_alignment(dissim)
+            elif mode == "soft":
+                al = continuum.get_best_soft_alignment(dissim)
+            else:
+                al = continuum.get_fast_alignment(dissim, case["window"])
     except Exception as e:
         ctx.fail_exc(f"{mode}:raises:{type(e).__name__}", e, monitor="M-DIS")
         return
@@ -246,11 +248,13 @@ def run(ctx):
                                  for u in us] for a, us in cspec["ann"].items()}, "family": "arbitrary-doubles"}
         if i % 3 == 0:
             mode = rng.choice(["best", "soft", "fast"])
-            case = {"type": "returned", "continuum": cspec, "dissim": dspec, "mode": mode, "arbitrary_doubles": arbitrary}
+            case = {"type": "returned", "continuum": cspec, "dissim": dspec, "mode": mode, "arbitrary_doubles": arbitrary,
+                    "backend": rng.choice(["cbc", "cbc", "glpk", "cbcfail"] + (["cbcfail2", "cbcfail3"] if mode == "fast" else []))}
             if mode == "fast":
                 case["window"] = rng.randint(1, mx + 1)
             ctx.begin_case(case)
             ctx.observe("mode", mode)
+            ctx.observe("solver_configuration", case["backend"])
         else:
             aspec = cases.random_partition_alignment(rng, cspec, p_join=rng.choice([0.2, 0.6, 0.9]))
             names = sorted(cspec["ann"].keys())
